@@ -664,8 +664,13 @@ class TypeTransformer:
         if self.no_explicit_cast:
             return t(data)  # noqa
         if not self.no_data_loss:
-            if data in t.__members__:  # noqa
-                return t.__members__[data]  # noqa
+            # member names are texts (an unhashable input must not fail the lookup itself); a text that is also
+            # the value of a member means that member, as it does under the stricter options
+            if isinstance(data, str) and data in t.__members__:  # noqa
+                try:
+                    return t(data)  # noqa
+                except ValueError:
+                    return t.__members__[data]  # noqa
         member_type = getattr(t, "_member_type_", None)
         if member_type and member_type != object:
             if type(data) != member_type:
